@@ -1070,6 +1070,9 @@ class BaselineOracle:
                     want = np.interp(newc, c, src[:, j])
                 if not np.allclose(got[inside, j], want[inside], rtol=1e-9, atol=1e-9):
                     out.append("C14:interp-not-piecewise-linear:" + sig); break
+                # beyond the axis numpy.interp holds the edge value OF THIS TRACE (left / right left at their defaults)
+                if not np.allclose(got[~inside, j], want[~inside], rtol=1e-9, atol=1e-9):
+                    out.append("C14:interp-edge-value-not-of-this-trace:" + sig); break
         elif f == "left_shift":
             n = kw["n"]; k = list(pre.dims).index(dim)
             want = np.take(np.asarray(pre.values), np.arange(n, pre.shape[k]), axis=k)
